@@ -71,6 +71,9 @@ def run(ctx):
     _no_hash_keyed_tables(ctx, repo)
     _reader_builds_with_cls(ctx, repo)
     _repr_covers_equality(ctx, repo)
+    _json_keys_decided_independently(ctx, repo)
+    shared.mapping_order_in_equality_rule(ctx, 'C11.r')
+    shared.frozen_dataclass_eq_hash_rule(ctx, 'C11.s')
     _bytes_identity_rule(ctx, repo)
     _key_string_rule(ctx, repo)
     shared.module_state_rule(ctx, 'C11.j', ['cirq-core/cirq/protocols/', 'cirq-core/cirq/value/', 'cirq-core/cirq/study/', 'cirq-core/cirq/_compat.py'], floor=3)
@@ -785,3 +788,58 @@ def _repr_covers_equality(ctx, repo):
         ok = not miss or whole or ex is not None
         ctx.ob('C11.o', f'{ci.qual}.__repr__:covers-equality', ok, ('tabled: ' + ex) if (ex and miss and not whole) else '' if ok else
                f'__repr__ never reads {miss}, which equality compares: two unequal values print the same, and eval(repr(x)) is not equal to x', ci.mod.rel, rp.lineno)
+
+
+def _json_keys_decided_independently(ctx, repo, rid='C11.q'):
+    """Conditional JSON keys: what one path of _json_dict_ (or of a helper it calls) writes, every other path writes or decides not to."""
+    from ..flow import PathWalker
+    ctx.decided.append(f'{rid} in every _json_dict_ with branches (and in the private helpers it calls), each stored field that some path writes is, on every other path, '
+                       'either written too or looked at by a test on that path - a key is never left out because an earlier, unrelated test returned first')
+    ctx.rule(rid, 'independent optional keys: along every non-raising path through _json_dict_ (and through each own helper it calls), every self field that is read by a statement '
+             'on some path of that function is read by a statement or by a branch test on this path as well; an early return under a test of field A that skips the code writing '
+             'field B drops B from the document whenever A is set (GateFamily with both tags_to_accept and tags_to_ignore)', floor=20, style='MPT')
+
+    def self_fields(e):
+        return {x.attr for x in ast.walk(e) if isinstance(x, ast.Attribute) and isinstance(x.value, ast.Name) and x.value.id == 'self' and not isinstance(getattr(x, 'ctx', None), ast.Store)}
+    n = 0
+    for ci in sorted(repo.classes.values(), key=lambda c: c.qual):
+        if ci.mod.rel.endswith('_test.py') or '/testing/' in ci.mod.rel:
+            continue
+        fn0 = ci.methods.get('_json_dict_')
+        if fn0 is None:
+            continue
+        helpers = []
+        for c in ast.walk(fn0):
+            if isinstance(c, ast.Call) and isinstance(c.func, ast.Attribute) and isinstance(c.func.value, ast.Name) and c.func.value.id == 'self' and c.func.attr in ci.methods \
+                    and ci.methods[c.func.attr] not in helpers:
+                helpers.append(ci.methods[c.func.attr])
+        for fn in [fn0] + helpers:
+            if not any(isinstance(x, (ast.If, ast.Match)) for x in ast.walk(fn)):
+                continue
+
+            def transfer(node, st):
+                if not isinstance(node, ast.stmt):
+                    return [st]
+                return [(st[0] | frozenset(self_fields(node)), st[1])]
+
+            def branch(test, pol, st):
+                return [(st[0], st[1] | frozenset(self_fields(test)))]
+            pw = PathWalker(transfer, branch)
+            try:
+                exits = [e for e in pw.run(fn, (frozenset(), frozenset())) if e[0] != 'raise']
+            except RuntimeError as e:
+                ctx.unres(rid, f'{ci.qual}.{fn.name}', str(e), ci.mod.rel, fn.lineno)
+                continue
+            if not exits:
+                continue
+            allw = set().union(*[e[1][0] for e in exits])
+            bad = None
+            for kind, (w, seen), node in exits:
+                miss = allw - w - seen
+                if miss and bad is None:
+                    bad = (getattr(node, 'lineno', fn.lineno), sorted(miss))
+            n += 1
+            ctx.ob(rid, f'{ci.qual}.{fn.name}:optional-keys', bad is None, '' if bad is None else
+                   f'the path ending at line {bad[0]} neither writes nor tests {bad[1]}, which other paths write: the document loses them on this path', ci.mod.rel, fn.lineno)
+    if n == 0:
+        raise AnalysisError(f'{rid}: no branching _json_dict_ found')
